@@ -131,24 +131,82 @@ def _run_task(args):
 
 
 def pmap(fn, tasks, workers=None, mem_heavy=False):
-    """run fn(*task) for every task in worker processes (fresh process per task); yields (task, status, result, secs)"""
+    """run fn(*task) for every task, each in its own forked process; yields (task, status, result, secs) as they finish.
+    Own scheduler instead of multiprocessing.Pool: the parent stays single-threaded (forking a threaded parent deadlocked
+    children on inherited locks), a worker that dies or exceeds the per-task time limit becomes an 'err' result
+    (= inconclusive), never a hang."""
+    import pickle, tempfile, shutil, signal
     tasks = list(tasks)
     if not tasks:
         return
     workers = workers or min(16, os.cpu_count() or 4)
     if mem_heavy:
         workers = min(workers, 8)
-    if workers <= 1 or len(tasks) == 1 and False:
-        for t in tasks:
-            st, r, s = _run_task((fn, t))
-            yield t, st, r, s
-        return
-    ctx = mp.get_context('fork')
-    with ctx.Pool(processes=workers, maxtasksperchild=1) as pool:
-        for t, (st, r, s) in zip(tasks, pool.imap(_run_task, [(fn, t) for t in tasks], chunksize=1)):
-            if os.environ.get('VERIF_DEBUG') and s > float(os.environ['VERIF_DEBUG']):
-                print('   [slow task %.0fs] %s' % (s, str(t)[:200]), flush=True)
-            yield t, st, r, s
+    limit = float(os.environ.get('VERIF_TASK_TIMEOUT', '5400'))
+    tmp = tempfile.mkdtemp(prefix='verif_pmap_')
+    running = {}            # pid -> (index, start time)
+    nxt = 0
+    done = 0
+    try:
+        while done < len(tasks):
+            while nxt < len(tasks) and len(running) < workers:
+                sys.stdout.flush()
+                sys.stderr.flush()
+                pid = os.fork()
+                if pid == 0:
+                    code = 0
+                    try:
+                        res = _run_task((fn, tasks[nxt]))
+                        with open(os.path.join(tmp, '%d.pkl' % nxt), 'wb') as f:
+                            pickle.dump(res, f)
+                    except BaseException as e:
+                        try:
+                            with open(os.path.join(tmp, '%d.pkl' % nxt), 'wb') as f:
+                                pickle.dump(('err', 'worker failed: %s: %s' % (type(e).__name__, str(e)[:300]), 0.0), f)
+                        except BaseException:
+                            code = 1
+                    finally:
+                        sys.stdout.flush()
+                        os._exit(code)
+                running[pid] = (nxt, time.time())
+                nxt += 1
+            # reap
+            try:
+                pid, status = os.waitpid(-1, os.WNOHANG)
+            except ChildProcessError:
+                pid = 0
+            if pid == 0:
+                now = time.time()
+                for p_, (i, t0) in list(running.items()):
+                    if now - t0 > limit:
+                        try:
+                            os.kill(p_, signal.SIGKILL)
+                        except OSError:
+                            pass
+                time.sleep(0.05)
+                continue
+            if pid not in running:
+                continue            # some other child (e.g. a solver process reaped late)
+            i, t0 = running.pop(pid)
+            path = os.path.join(tmp, '%d.pkl' % i)
+            try:
+                with open(path, 'rb') as f:
+                    st, r, secs = pickle.load(f)
+                os.unlink(path)
+            except Exception:
+                st, r, secs = 'err', 'worker ended without a result (signal %d, exit %d, %.0fs%s)' % (
+                    status & 0x7f, status >> 8, time.time() - t0, ', killed at the per-task time limit' if time.time() - t0 > limit else ''), time.time() - t0
+            done += 1
+            if os.environ.get('VERIF_DEBUG') and secs > float(os.environ['VERIF_DEBUG']):
+                print('   [slow task %.0fs] %s' % (secs, str(tasks[i])[:200]), flush=True)
+            yield tasks[i], st, r, secs
+    finally:
+        for p_ in running:
+            try:
+                os.kill(p_, signal.SIGKILL)
+            except OSError:
+                pass
+        shutil.rmtree(tmp, ignore_errors=True)
 
 
 def chunks(xs, k):
